@@ -279,6 +279,10 @@ _INST_W = [1, 1, 1, 2, 3, 4]
 _INST_ALPH = {1: "aZ 9_-" * 12 + PUNCT, 2: "é\u0301\u00a0\u0085", 3: "日\u2028\u200d", 4: "😀"}
 
 
+# the 33 ASCII control characters (0x00-0x1F, 0x7F) an instance label must not contain: every one of them is generated
+CONTROLS = [chr(i) for i in range(32)] + ["\x7f"]
+
+
 def inst_of_bytes(rng, nbytes):
     """an instance label of exactly nbytes UTF-8 bytes from mixed-width characters"""
     out, n = [], 0
@@ -354,7 +358,7 @@ def gen_prefix(rng):
         return inst_of_bytes(rng, nb), "inst-bytes%d" % nb
     if r < 0.7:
         base = rng.choice(INST_GOOD[:7])
-        ctrl = rng.choice(["\x00", "\x01", "\x1f", "\x7f", "\n", "\t", "\x20", "\x80", "\x9f", "\x7e"])
+        ctrl = rng.choice(CONTROLS + ["\x20", "\x80", "\x9f", "\x7e"])
         i = rng.randrange(len(base) + 1)
         return base[:i] + ctrl + base[i:], "inst-ctrl%02x" % ord(ctrl)
     if r < 0.78:
@@ -482,6 +486,12 @@ def gen_dict_surrogate(rng):
     """a small dictionary in which one str key or value holds a lone surrogate (a Python str that is not Unicode text)"""
     items = gen_dict_typed(rng)[:2]
     bad = rng.choice(SURROGATE_STRS)
+    if rng.random() < 0.3:
+        # a key that differs from a text key only by lone surrogates (an encoder that drops or replaces them merges the two)
+        twin = "".join(ch for ch in bad if not 0xD800 <= ord(ch) <= 0xDFFF) or "k"
+        pair = [(bad if twin != "k" else "k" + bad, "1"), (twin, "2")]
+        rng.shuffle(pair)
+        return pair + items[:1]
     if rng.random() < 0.5 or not items:
         items.insert(rng.randrange(len(items) + 1), (bad, rng.choice([None, "v", b"w", ""])))
     else:
@@ -753,6 +763,27 @@ def entry_classes(exp):
     return present, bad_lib, bad_rfc
 
 
+def must_entries(exp):
+    """What `C19_txt_entry_roundtrip` (lean/Zc/Props/C19.lean) guarantees of ONE entry whatever the others are -- the oracle demands
+    exactly that.  `eff[i]` is the key a reader takes from entry i's item (the part before its first '=').  Entry i is owed
+      by the library's reader  iff its key has no '=' and no EARLIER item yields that key (first one wins),
+      by the RFC 6763 reader   iff, in addition, its key is not empty and no earlier item yields a non-empty key equal to it up to
+                               ASCII case (an item whose key part is empty is ignored by that reader, so it shadows nothing).
+    Only entries that RFC 6763 6.4 forbids, and entries shadowed by an EARLIER one, are not owed."""
+    eff = [k.partition(b"=")[0] for k, _ in exp]
+    lib_must, rfc_must = [], []
+    seen, seen_f = set(), set()
+    for (k, v), e in zip(exp, eff):
+        if b"=" not in k and k not in seen:
+            lib_must.append((k, v))
+            if k != b"" and k.lower() not in seen_f:
+                rfc_must.append((k, v))
+        seen.add(e)
+        if e != b"":
+            seen_f.add(e.lower())
+    return lib_must, rfc_must, eff
+
+
 FINDING_WHAT = {
     "key-contains-equals": "a key containing '=' cannot be carried by a TXT record: it is split at its first '=' when read back (RFC 6763 6.4 forbids such keys; the library does not reject them)",
     "keys-collide-after-encoding": "a str key and a bytes key with the same UTF-8 bytes are two dictionary entries but one TXT attribute: only the first is read back",
@@ -791,9 +822,10 @@ def txt_violations(items, obs):
     """stage O for one dictionary: list of (sig, what, case).
 
     For every dictionary within the 255-byte item limit: no exception, `.text` is bytes and well-framed, `.properties` (and
-    the library's decode of `.text`) hold bytes keys and bytes-or-None values.  Then, ENTRY BY ENTRY: every entry that RFC
-    6763 section 6.4 allows -- and that is not shadowed by an entry it forbids (`entry_classes`) -- must be given back by
-    `.properties`, by the library's decode of `.text` and by the independent RFC 6763 reader, and nothing else may appear.
+    the library's decode of `.text`) hold bytes keys and bytes-or-None values.  Then, ENTRY BY ENTRY, exactly what
+    `C19_txt_entry_roundtrip` states (`must_entries`): every entry whose key has no '=' and is not yielded by an EARLIER item must
+    be given back by `.properties`, by the library's decode of `.text` and (non-empty key, no earlier item with that key up to
+    ASCII case) by the independent RFC 6763 reader, and no key may appear that no entry's item yields.
     Only the forbidden entries themselves cannot round-trip (Lean: C19_txt_*_refuted); that is reported under one signature
     per entry class (known findings) and only when such an entry is in fact not read back."""
     case = {"stream": "txt", "items": items_json(items)}
@@ -808,6 +840,21 @@ def txt_violations(items, obs):
             return out  # also has an item over 255 bytes: outside the quantifier, whichever exception comes first
         if obs[0] == "err":
             return [("C19:txt-encode-raises:%s" % obs[1], "a properties dictionary with a lone-surrogate str raised %s" % obs[1], case)]
+        # ACCEPTED: what bytes a non-text str becomes is not for this oracle to say, but the entries that ARE text are still owed:
+        # distinct given keys must stay distinct, so a text entry that no earlier TEXT entry shadows must be read back by the library
+        _, text, props, fresh = obs[:4]
+        if type(text) is not bytes or not_bytes(props) or not_bytes(fresh):
+            return [("C19:properties-not-bytes", "a dictionary with a lone-surrogate str is accepted and .text / .properties are not bytes", case)]
+        texty = [(k, v) for k, v in items if not any(isinstance(x, str) and has_surrogate(x) for x in (k, v))]
+        lib_must, _rfc, _eff = must_entries(expected_props(texty))
+        for obs_, nm in ((props, ".properties"), (fresh, "the library's decode of .text")):
+            have = set(norm(obs_))
+            missing = [(k, v) for k, v in lib_must if (canon(k), canon(None if v == b"" else v)) not in have]
+            if missing:
+                out.append(("C19:txt-accepted-non-text-str-loses-entry", "a dictionary with a lone-surrogate str is accepted, and the text entry %r: %r is not "
+                            "read back by %s (distinct given keys must stay distinct)" % (missing[0][0], missing[0][1], nm),
+                            dict(case, text=text.hex(), got=props_str(obs_, False))))
+                break
         return out
     exp = expected_props(items)
     cls = wf_class(exp)
@@ -828,31 +875,38 @@ def txt_violations(items, obs):
                     dict(case, got=props_str(props, False))))
     if not_bytes(fresh):
         out.append(("C19:decoded-properties-not-bytes", "decoding .text in the library yields non-bytes keys/values", dict(case, got=props_str(fresh, False))))
-    present, bad_lib, bad_rfc = entry_classes(exp)
+    present, _bad_lib, _bad_rfc = entry_classes(exp)
     got = rfc_parse(text)
-    note = "" if not present else " (judged on the entries RFC 6763 6.4 allows; the dictionary also has: %s)" % ", ".join(sorted(present))
+    note = "" if not present else " (judged entry by entry; the dictionary also has: %s)" % ", ".join(sorted(present))
     small = lambda pr: props_str(pr, False) if len(pr) <= 12 else "%d entries" % len(pr)  # noqa: E731
-    # ---- the library's two readers, on the entries that can be carried
-    e_lib = _without(exp, bad_lib)
-    p_lib, f_lib = _without(props, bad_lib), _without(fresh, bad_lib)
-    if norm(p_lib) != norm(e_lib):
-        out.append(("C19:txt-properties-differ", ".properties does not give back the dictionary (same keys and values as bytes; empty value = no value)" + note,
-                    dict(case, got=small(props))))
-    if norm(p_lib) != norm(f_lib):
+    lib_must, rfc_must, eff = must_entries(exp)
+    keys = {k for k, _ in exp}
+    # ---- the library's two readers: every entry of `lib_must` is there with its value (empty = none), and no key appears that no
+    # entry's item yields (`.properties` of an all-bytes dictionary is the caller's dictionary: it also holds the keys as given)
+    for obs_, allowed, sig, what, field in (
+            (props, set(eff) | keys, "C19:txt-properties-differ", ".properties does not give back the dictionary (same keys and values as bytes; empty value = no value)", "got"),
+            (fresh, set(eff), "C19:txt-library-decode-differs", "decoding .text in the library does not give back the dictionary", "got")):
+        have = set(norm(obs_))
+        missing = [(k, v) for k, v in lib_must if (canon(k), canon(None if v == b"" else v)) not in have]
+        extra = [k for k, _ in obs_ if not (_hashable(k) and k in allowed)]
+        if missing or extra:
+            why = ("the entry %r: %r is not read back" % missing[0]) if missing else "the key %r comes from no entry" % (extra[0],)
+            out.append((sig, what + ": " + why + note, dict(case, **{field: small(obs_)})))
+    if [e for e in norm(props) if e[0] in {canon(k) for k, _ in lib_must}] != [e for e in norm(fresh) if e[0] in {canon(k) for k, _ in lib_must}]:
         out.append(("C19:properties-disagree-with-library-decode", ".properties differs from the library's own decode of .text" + note,
                     dict(case, got=small(props), decoded=small(fresh))))
-    if norm(f_lib) != norm(e_lib):
-        out.append(("C19:txt-library-decode-differs", "decoding .text in the library does not give back the dictionary" + note, dict(case, got=small(fresh))))
-    # ---- the independent RFC 6763 reader
+    # ---- the independent RFC 6763 reader: every entry of `rfc_must` with exactly its value (empty kept), nothing from no entry
     if got is None:
         out.append(("C19:txt-rfc6763-decode-differs", ".text is not a sequence of length-prefixed strings (an RFC 6763 section 6 reader runs off its end)", case))
     else:
-        e_rfc = [(k, v) for k, v in _without(exp, bad_rfc, fold=True) if b"=" not in k]
-        g_rfc = _without(got, bad_rfc, fold=True)
-        p_rfc = _without(_without(props, bad_lib), bad_rfc, fold=True)
-        if exact(g_rfc) != exact(e_rfc):
-            out.append(("C19:txt-rfc6763-decode-differs", "an RFC 6763 section 6 reader does not recover the dictionary from .text" + note, dict(case, rfc=small(got))))
-        if norm(p_rfc) != norm(g_rfc):
+        have = set(exact(got))
+        missing = [(k, v) for k, v in rfc_must if (canon(k), canon(v)) not in have]
+        extra = [k for k, _ in got if k not in {e for e in eff if e != b""}]
+        if missing or extra:
+            why = ("the entry %r: %r is not recovered" % missing[0]) if missing else "the key %r comes from no entry" % (extra[0],)
+            out.append(("C19:txt-rfc6763-decode-differs", "an RFC 6763 section 6 reader does not recover the dictionary from .text: " + why + note, dict(case, rfc=small(got))))
+        both = {canon(k) for k, _ in lib_must} & {canon(k) for k, _ in rfc_must}
+        if [e for e in norm(props) if e[0] in both] != [e for e in norm(got) if e[0] in both]:
             out.append(("C19:properties-disagree-with-rfc6763", ".properties differs from what an RFC 6763 section 6 reader finds in .text" + note,
                         dict(case, got=small(props), rfc=small(got))))
     # ---- the forbidden entries themselves: known findings, reported when such an entry is in fact not read back
@@ -899,6 +953,8 @@ def run(ctx):
              "_\u212a._tcp.local.", "_a\u017f._tcp.local.", "_\u017f._udp.local.", "x._\u0130._tcp.local.", "_\u0131-1._tcp.local.", "_a\u00df._tcp.local.",
              "_\ufb01._tcp.local.", "_a\u00b2._tcp.local.", "_\uff21._tcp.local.", "s._sub._\u212a1._udp.local.",
              "_" + "a" * 243 + "._tcp.local.", "_" + "a" * 244 + "._tcp.local.", "_-._tcp.local.", "_a-._tcp.local.", "_1._tcp.local.", "_1-2._tcp.local."]
+    # each control character once in an instance, once in a <sub> part, once in the bare .local. form
+    fixed += ["a%sb._http._tcp.local." % c for c in CONTROLS] + ["s%s._sub._x._udp.local." % c for c in CONTROLS] + ["%shost.local." % c for c in CONTROLS]
     for s in fixed:
         names.append((s, True, "fixed"))
         names.append((s, False, "fixed"))
@@ -977,7 +1033,8 @@ def run(ctx):
     dicts += [[("%dk" % i + "x" * 250, "v") for i in range(6)], [(b"%dk" % i + b"y" * 244, b"vvvv") for i in range(8)], [("k%d" % i, "v%d" % i) for i in range(40)],
               [("%x" % i, None if i % 3 else b"") for i in range(300)], [("%02x" % i + "z" * 250, "vv") for i in range(255)]]
     # str keys / values that are not Unicode text
-    dicts += [[("\ud800", "v")], [("k", "\ud800")], [(b"k", "\udfff")], [("\udc80", None)], [("a", "1"), ("b\ud83d", "2")], [("k" * 300, "\ud800")]]
+    dicts += [[("a\ud800", "1"), ("a", "2")], [("a", "2"), ("\udc80a", "1")], [(b"a", b"2"), ("a\udfff", None)],
+              [("\ud800", "v")], [("k", "\ud800")], [(b"k", "\udfff")], [("\udc80", None)], [("a", "1"), ("b\ud83d", "2")], [("k" * 300, "\ud800")]]
     rng = C.rng_for(seed, "c19", "txt-big")
     for _ in range(B(50, 1500)):
         dicts.append(gen_dict_big(rng))
